@@ -36,10 +36,15 @@ struct Shared<'a>(&'a Prog);
 unsafe impl Send for Shared<'_> {}
 
 pub fn emit(p: &Prog, b: Backend, keys: u64) -> Result<String, CompileErr> {
+    emit_noisy(p, b, keys, 0)
+}
+
+/// `noise` != 0: occurrences of a variable carry different display names (ids unchanged)
+pub fn emit_noisy(p: &Prog, b: Backend, keys: u64, noise: u64) -> Result<String, CompileErr> {
     let sh = Shared(p);
     let r = seam::in_instance(keys, move || {
         let sh = sh;
-        let prog = crate::ast::to_axcut(sh.0);
+        let prog = crate::ast::to_axcut_noisy(sh.0, noise);
         match b {
             Backend::X86 => {
                 let code = compile::<axcut2x86_64::Backend, _, _, _>(prog);
